@@ -306,6 +306,12 @@ impl VirtualSign<'_> {
 
     /// Handles `DataChunksSent` messages.
     fn data_chunks_sent<'a>(&mut self, chunks: ChunkCount) -> Option<Message<'a>> {
+        // This message is not addressed, so every sign on the bus sees the end of every
+        // other sign's transfer. Only a sign that is currently receiving data reacts to it.
+        if self.state != State::ConfigInProgress && self.state != State::PixelsInProgress {
+            return None;
+        }
+
         if ChunkCount(self.data_chunks) == chunks {
             match self.state {
                 State::ConfigInProgress => self.state = State::ConfigReceived,
